@@ -744,6 +744,22 @@ def check_primitives(prog):
                 probs.append(Problem("L1", "encodeLength", "exit-test", "the digit loop continues while value %s %s; it must continue exactly while "
                                      "another digit is needed (value > 127 before the division, value > 0 after it): a quotient of exactly 128 is "
                                      "written as a lone continuation byte" % ({"Gt": ">", "GtE": ">=", "NotEq": "!="}.get(op, op), c), node))
+    # constant tests where the two decisions belong: `if <constant>:` around the continuation bit or the break
+    el_fn = mod.funcs["encodeLength"].node
+    for x in ast.walk(el_fn):
+        if isinstance(x, ast.If) and isinstance(x.test, ast.Constant):
+            sets_cont = any(isinstance(y, ast.AugAssign) and isinstance(y.op, ast.BitOr) for y in x.body)
+            leaves = any(isinstance(y, ast.Break) for y in x.body)
+            if sets_cont:
+                probs.append(Problem("L1", "encodeLength", "continuation-test", "the continuation bit is set under the constant test `%s`; it must be "
+                                     "set exactly when digits remain (value > 0)" % U(x.test), x))
+                conds.append(("cont", "Gt", 0, x))
+            if leaves:
+                probs.append(Problem("L1", "encodeLength", "exit-test", "the loop ends under the constant test `%s`; it must end exactly when no digits "
+                                     "remain (value <= 0)" % U(x.test), x))
+    inf_loops = [x for x in ast.walk(el_fn) if isinstance(x, ast.While) and isinstance(x.test, ast.Constant) and x.test.value is True]
+    if inf_loops and not any(k == "exit" for k, *_ in conds) and not any(isinstance(x, ast.If) and isinstance(x.test, ast.Constant) for x in ast.walk(el_fn)):
+        probs.append(Problem("L1", "encodeLength", "exit-test", "the `while True` digit loop has no exit that tests the remaining value", inf_loops[0]))
     if not any(k in ("cont", "loop") for k, *_ in conds) and not no_cont:
         raise AnalysisError("encodeLength: continuation test not recognisable")
     r = Roles(prog, mod, mod.funcs["decodeLength"])
